@@ -45,6 +45,9 @@ def cases(tier, seed):
             out.append(dict(t="pairs", cs=cs, n=10 if tier == "quick" else 25, seed=R.randrange(1 << 30)))
         for i in range(8 if tier == "quick" else 160):
             out.append(dict(t="pixel", cs=cs, gen=["uniform", "polar89", "structure", "branch"][i % 4], n=14 if tier == "quick" else 25, seed=R.randrange(1 << 30)))
+        # interrupted lookups; each case runs in an interpreter of its own, so that its first lookup is the process's first
+        for i in range(5 if tier == "quick" else 40):
+            out.append(dict(t="interrupt", cs=cs, k=[1, 3, 10, 60, 400, 30, 150][i % 7], D=8, seed=R.randrange(1 << 30), _env={"VERIF_FRESH_INTERPRETER": "1"}))
     return out
 
 
@@ -360,7 +363,43 @@ def case_pixel(spec):
     return r
 
 
+def case_interrupt(spec):
+    """lookups that are cut short by an asynchronous exception (Ctrl-C, a raising timeout handler) - among them the very FIRST
+    lookup of a fresh interpreter - followed by ordinary lookups, which are judged as in the 'tile' cases"""
+    from toasty import toast
+    from toasty.toast import ToastCoordinateSystem as CS
+
+    from vlib import interrupt
+
+    pl = spec["cs"] == "planetary"
+    cs = CS.PLANETARY if pl else CS.ASTRONOMICAL
+    R = random.Random(spec["seed"])
+    n_int = 0
+    for rnd in range(6):
+        lon, lat = R.uniform(0, 2 * math.pi), math.asin(R.uniform(-0.98, 0.98))
+        d = R.choice([3, 5, 7, 9])
+        k = R.choice([1, 2, 3, 5, 8, 13, 40, 150, 600]) if rnd else spec["k"]
+        if interrupt.interrupted(lambda: toast.toast_tile_for_point(d, lat, lon, coordsys=cs), k):
+            n_int += 1
+        if rnd % 2:
+            # the interrupted lookup is repeated as it is
+            t = toast.toast_tile_for_point(d, lat, lon, coordsys=cs)
+            c, _ = rt.tile_corners(tuple(int(v) for v in t.pos), pl)
+            sd = float(rt.signed_edge_distances(c, rt.xyz(lon, lat)).min())
+            if sd < -1e-9:
+                return dict(status="violation", key="not-contained:after-interrupted-lookup", counters=dict(interrupted_lookups=n_int),
+                            detail="%s: a lookup of (lon=%.12g, lat=%.12g) at depth %d was interrupted (call #%d) and repeated: the answer %s does not contain the point (%.3g rad outside)" % (
+                                spec["cs"], lon, lat, d, k, tuple(t.pos), -sd))
+    r = case_tile(dict(spec, t="tile", gen="uniform", n=20, D=spec.get("D", 8)))
+    r.setdefault("counters", {})["interrupted_lookups"] = n_int
+    if r.get("status") == "violation":
+        r["key"] = r["key"] + ":after-interrupted-lookup"
+    return r
+
+
 def run_case(spec, workdir):
+    if spec["t"] == "interrupt":
+        return case_interrupt(spec)
     return dict(tile=case_tile, pixel=case_pixel, track=case_track, pairs=case_pairs)[spec["t"]](spec)
 
 
